@@ -179,8 +179,21 @@ def search(spec):
     n = 0
     two = oracle in ("C10", "C11")
 
+    # NaN parameters: the listed NaN findings (C02 / C10 / C15 ...); for C11 the oracle compares the two results with ==,
+    # which NaN parameters defeat (C15-nan) although the registries are identical -- not a C11 matter
+    skip_nan = any("nan" in r for r in (spec.get("active_regions") or [])) or oracle == "C11"
+
+    def has_nan(x):
+        if isinstance(x, dict):
+            return x.get("k") == "fnan" or any(has_nan(v) for v in x.values()) or ("nan" in str(x.get("src", "")))
+        if isinstance(x, list):
+            return any(has_nan(v) for v in x)
+        return False
+
     def run(inputs, m):
         nonlocal n
+        if skip_nan and has_nan(inputs):
+            return None          # inside a listed known finding (NaN): not searched again
         n += 1
         try:
             import inspect
